@@ -72,7 +72,7 @@ class C10(core.Check):
     GEN = []
     PROPS = 'props/C10.v'
     MODEL_IMPORTS = ['model.StrSpace', 'model.UserFn']
-    QUICK_CASES = 260
+    QUICK_CASES = 150
     THOROUGH_CASES = 4000
     TRUSTED = ['hand model model/StrSpace.v + model/UserFn.v of StringSpace / DataSegment / Scalars / Arrays / '
                'ExpressionParser.parse / UserFunction.evaluate, tied by correspondence on random histories through a '
@@ -111,7 +111,7 @@ class C10(core.Check):
         hist = {}
         for i in range(n):
             r = rng.random()
-            if r < 0.03:
+            if r < 0.03 and self.tier == 'thorough':
                 ns = 300
             elif r < 0.15:
                 ns = 120
